@@ -16,7 +16,7 @@ RULE = ("seeded typed query generator (scan/filter/project, all join kinds, GROU
         "non-trivial = reference result non-empty or an input table empty; distinct = distinct (query text, data)")
 ASSUMPTIONS = ["engine consensus defines the expected rows", "ORDER BY keys always carry explicit NULLS FIRST|LAST (engines' defaults differ)"]
 SPEC = {
-    "quick": {"shards": 16, "time_cap": 120, "cases": 12000},
+    "quick": {"shards": 16, "time_cap": 400, "cases": 12000},
     "thorough": {"shards": 16, "time_cap": 1500, "cases": 100000},
 }
 
